@@ -38,7 +38,9 @@ pub fn sim_plan(rng: &mut Rng, faulty: bool) -> SimPlan {
         eager_clock_permille: eager,
         throttle: *rng.pick(&[8u32, 16, 32, 64]),
         stalls,
-        epoch_phase_ns: rng.below(SEC),
+        // sub-second phase plus a few hundred whole seconds: whatever the library derives from the
+        // wall clock at construction (seeds) differs from run to run
+        epoch_phase_ns: rng.below(SEC) + rng.below(600) * SEC,
         max_steps: 200_000,
         stall_after_recv_permille: after_recv,
         step_cost_ns: 0,
@@ -931,6 +933,80 @@ pub fn gen_late(prop: &str, seed: u64) -> Plan {
 }
 
 
+/// The wall clock is stepped back (C03/C04/C20): an administrator, a VM resume or a time daemon
+/// sets CLOCK_REALTIME to an earlier value while timers keep following monotonic time.  One
+/// client, roomy cache, lockstep; entries with and without TTL are written before and after
+/// steps of a millisecond to hours and looked up on both sides.  The reference models assume
+/// one clock, so only the engine rules (nothing panics, no worker dies, nothing blocks) and a
+/// dedicated oracle (oracle::wall_step_rules) judge these plans.
+pub fn gen_wall_step(prop: &str, seed: u64) -> Plan {
+    let mut rng = Rng::new(seed ^ 0x77a1);
+    let flavor = pick_flavor_l(&mut rng);
+    let mut cfg = roomy_cfg(&mut rng, flavor);
+    let sim = sim_plan(&mut rng, false);
+    let universe: Vec<u64> = vec![rng.range(1, 20), 300 + rng.below(20), rng.range(1000, 9000), rng.range(10_000, 20_000)];
+    let mut ops: Vec<Op> = Vec::new();
+    let mut writes = 0;
+    let steps = rng.range(2, 8);
+    let back = |rng: &mut Rng| match rng.below(4) {
+        0 => rng.range(1, 2000) * MS,
+        1 => rng.range(1, 120) * SEC,
+        2 => rng.range(1, 3) * 3600 * SEC,
+        _ => rng.range(1, 20) * SEC + rng.below(1000) * MS,
+    };
+    if rng.chance(1, 3) {
+        // an entry admitted before the step expires after it: the sweep meets bookkeeping
+        // (admission timestamps of the metrics) that lies in the wall clock's future
+        let k = universe[0];
+        ops.push(Op::Insert { k, cost: 1, ttl_ns: if rng.chance(1, 2) { 0 } else { rng.range(30, 90) * SEC }, size: 1 });
+        ops.push(Op::Barrier);
+        ops.push(Op::WallStepBack { ns: rng.range(10, 400) * SEC });
+        ops.push(Op::Insert { k, cost: 1, ttl_ns: rng.range(1, 2) * SEC + rng.below(1000) * MS, size: 1 });
+        ops.push(Op::Barrier);
+        ops.push(Op::Get { k, hold: 0 });
+        ops.push(Op::Sleep { ns: rng.range(3000, 7000) * MS });
+        ops.push(Op::Barrier);
+        ops.push(Op::Get { k, hold: 0 });
+        ops.push(Op::Len);
+        writes += 2;
+    }
+    for i in 0..steps {
+        let k = *rng.pick(&universe);
+        match rng.below(10) {
+            0..=4 => ops.push(Op::Insert { k, cost: rng.range(1, 4) as i64, ttl_ns: if rng.chance(1, 3) { rng.range(1, 3) } else { rng.range(1, 60) } * SEC + rng.below(1000) * MS, size: 1 }),
+            5 | 6 => ops.push(Op::Insert { k, cost: 1, ttl_ns: 0, size: 2 }),
+            7 => ops.push(Op::Remove { k }),
+            _ => ops.push(Op::Sleep { ns: rng.range(100, 4000) * MS }),
+        }
+        writes += 1;
+        if rng.chance(5, 6) {
+            ops.push(Op::Barrier);
+        }
+        if i > 0 && rng.chance(1, 2) || i + 1 == steps {
+            ops.push(Op::WallStepBack { ns: back(&mut rng) });
+        }
+        for k in &universe {
+            if rng.chance(2, 3) {
+                ops.push(Op::Get { k: *k, hold: 0 });
+            }
+            if rng.chance(2, 3) {
+                ops.push(Op::GetTtl { k: *k });
+            }
+        }
+        if rng.chance(1, 3) {
+            ops.push(Op::Sleep { ns: rng.range(100, 3000) * MS });
+        }
+    }
+    ops.push(Op::Barrier);
+    for k in &universe {
+        ops.push(Op::Get { k: *k, hold: 0 });
+        ops.push(Op::GetTtl { k: *k });
+    }
+    ops.push(Op::Wait);
+    cfg.buffer_size = cfg.buffer_size.max(writes + 8);
+    Plan { prop: prop.into(), family: "L-wall-step".into(), seed, cfg, sim, clients: vec![ops], chaos: vec![], finale: if rng.chance(1, 2) { Finale::Close } else { Finale::None }, universe, tags: vec!["lockstep".into(), "under_capacity".into(), "wall_step".into(), "final_probe".into()] }
+}
+
 /// TTLs beyond anything a deadline can represent (C03/C10/C20): `Duration::MAX` - which is what
 /// `get_ttl` reports for an entry without expiry, so it comes back when a caller copies an entry
 /// "with the same TTL" - and a few other values whose deadline overflows seconds-since-epoch.
@@ -1257,7 +1333,7 @@ pub fn gen_plan(prop: &str, seed: u64, variant: u64) -> Plan {
         p.cfg.recipe = ((variant / 3) % 8) as u8;
     }
     // a second cache in the same process (C03/C04/C05/C10 families without tick events)
-    if matches!(prop, "C03" | "C04" | "C05" | "C10" | "C16") && variant % 9 == 4 && !matches!(p.cfg.keys, KeyMode::Typed { .. }) && !p.has_tag("tick_events") && !p.has_tag("bulk") && !p.has_tag("huge_ttl") {
+    if matches!(prop, "C03" | "C04" | "C05" | "C10" | "C16") && variant % 9 == 4 && !matches!(p.cfg.keys, KeyMode::Typed { .. }) && !p.has_tag("tick_events") && !p.has_tag("bulk") && !p.has_tag("huge_ttl") && !p.has_tag("wall_step") {
         p.cfg.decoy = true;
         p.tags.push("decoy_cache".into());
     }
@@ -1311,6 +1387,7 @@ fn gen_plan_inner(prop: &str, seed: u64, variant: u64) -> Plan {
     let prop = over.as_deref().unwrap_or(prop);
     match prop {
         "C03" | "C10" | "C20" if variant % 40 == 11 => gen_huge_ttl(prop, seed),
+        "C03" | "C04" | "C20" if variant % 40 == 23 => gen_wall_step(prop, seed),
         "C13" | "C15" if variant % 20_000 == 3 => gen_mega(prop, seed),
         "C11" if variant % 11 == 5 => gen_clear_backlog(prop, seed),
         "C13" | "C15" if variant % 97 == 5 => gen_hot(prop, seed),
